@@ -112,9 +112,11 @@ Section Sound.
       intros [= <-]. econstructor; eauto.
   Qed.
 
-  Lemma gstep_sound s e s' : gstep rs replicas byz genesis s e = Some s' -> step s s'.
+  Lemma gstep_sound_single s e s' :
+    (forall r c o, e <> ECommits r c o) ->
+    gstep rs replicas byz genesis s e = Some s' -> step s s'.
   Proof.
-    destruct e as [b|i h|r v|r h ol|r h1 obs]; cbn [gstep].
+    intros NotMulti. destruct e as [b|i h|r v|r h ol|r h1 obs|r cands obs]; cbn [gstep].
     - destruct (U s (b_hash b)) eqn:E; [discriminate|].
       destruct (negb (b_hash b =? b_parent genesis) && negb (b_hash b =? b_qc genesis))%bool eqn:G; [|discriminate].
       intros [= <-]. apply andb_true_iff in G. destruct G as [G1 G2].
@@ -157,6 +159,47 @@ Section Sound.
         * rewrite !andb_true_iff, !N.eqb_eq in Hr. tauto.
         * now apply N.eqb_eq.
       + eapply segb_sound; eauto.
+    - exfalso. eapply NotMulti; reflexivity.
+  Qed.
+
+
+  Lemma try_commit_sound s r h1 obs s' rest :
+    try_commit rs replicas byz genesis s r h1 obs = Some (s', rest) -> step s s'.
+  Proof.
+    unfold try_commit.
+    destruct (U s h1) as [b1|] eqn:E1; [|discriminate].
+    destruct (U s (b_qc b1)) as [b2|] eqn:E2; [|discriminate].
+    destruct (U s (b_qc b2)) as [b3|] eqn:E3; [|discriminate].
+    match goal with |- (if ?c then _ else _) = _ -> _ => destruct c eqn:G; [|discriminate] end.
+    rewrite !andb_true_iff in G. destruct G as (((Hh & Hhash) & Hc) & Hr).
+    apply N.eqb_eq in Hhash.
+    match goal with |- match ?c with _ => _ end = _ -> _ => destruct c as [[|x l']|] eqn:Es; try discriminate end.
+    match goal with |- match ?c with _ => _ end = _ -> _ => destruct c as [rest'|]; [|discriminate] end.
+    intros [= <- <-].
+    eapply (step_commit rs member honest qsize genesis s r b3 b2 b1 (x :: l')); auto.
+    + unfold commit_rule. rewrite Hhash. split; [exact E1|]. split; [exact E2|]. split; [exact E3|].
+      split; [rewrite <- Hhash; now apply certb_sound|].
+      unfold commit_ruleb in Hr. destruct rs.
+      * rewrite !andb_true_iff, !N.eqb_eq in Hr. tauto.
+      * now apply N.eqb_eq.
+    + eapply segb_sound; eauto.
+  Qed.
+
+  Lemma commits_fold_reach cands : forall s r obs s',
+    reach s -> commits_fold rs replicas byz genesis s r cands obs = Some s' -> reach s'.
+  Proof.
+    induction cands as [|h1 rest IH]; simpl; intros s r obs s' R H.
+    - destruct obs; [now injection H as <-|discriminate].
+    - destruct (try_commit rs replicas byz genesis s r h1 obs) as [[s1 obs1]|] eqn:E.
+      + eapply IH; [|eauto]. econstructor; eauto. eapply try_commit_sound; eauto.
+      + eapply IH; eauto.
+  Qed.
+
+  Lemma gstep_reach s e s' : reach s -> gstep rs replicas byz genesis s e = Some s' -> reach s'.
+  Proof.
+    intros R H. destruct e as [b|i h|r v|r h ol|r h1 obs|r cands obs].
+    6:{ cbn [gstep] in H. eapply commits_fold_reach; eauto. }
+    all: econstructor; [exact R|]; eapply gstep_sound_single; eauto; intros; discriminate.
   Qed.
 
   Lemma run_reach es : forall s i s', reach s -> run rs replicas byz genesis s es i = (s', None) -> reach s'.
@@ -164,7 +207,7 @@ Section Sound.
     induction es as [|e es IH]; simpl; intros s i s' R H.
     - now injection H as <-.
     - destruct (gstep rs replicas byz genesis s e) as [s1|] eqn:E; [|discriminate].
-      eapply IH; [|eauto]. econstructor; eauto. eapply gstep_sound; eauto.
+      eapply IH; [|eauto]. eapply gstep_reach; eauto.
   Qed.
 
   (* In every reachable state of the abstract system (any schedule of block creation, Byzantine
